@@ -125,7 +125,7 @@ theorem spliceOut_text_inv {f : Forest} (hi : f.Inv) {n : Nat} {s : Str} (ht : f
   obtain ⟨k1, k2⟩ := hi.kids_at lc.eq
   have key : ({ f with roots := plug path (l ++ r) } : Forest).Inv := by
     apply hi.edit [n] lc.eq
-    · simp only [handlesList_append, handlesList_cons, handles_eq k, hkids, lc.hk, handlesList_nil,
+    · simp only [fi_handlesList_append, handlesList_cons, fi_handles_eq k, hkids, lc.hk, handlesList_nil,
         List.append_assoc]
       exact List.Perm.append_left _ List.perm_append_comm
     · cases hiv : innerValue path with
